@@ -14,6 +14,8 @@ import RbV.Lemmas.PoaGrowAll
 import RbV.Lemmas.PoaChainLink
 import RbV.Lemmas.PoaCustomGlobal
 import RbV.Thm.GenLimits
+import RbV.Model.PoaI32
+import RbV.Lemmas.PoaI32
 /-!
 # C16 — partial-order alignment: exact on linear graphs, graph stays a growing DAG
 
@@ -411,6 +413,63 @@ example : extendsB [65, 67] [(0, 1, 2)] [65, 67, 71] [(0, 1, 1), (1, 2, 1)] = fa
 example : ∃ s, score exSc [65, 67] [65, 67] [.mat, .mat] = some s ∧ nwBest exSc [65, 67] [65, 67] = s ∧
     ∀ ops v, score exSc [65, 67] [65, 67] ops = some v → ops ≠ [.mat, .mat] → v < s :=
   identity_is_unique_optimum exSc 1 (by intro a b; simp [exSc]; split <;> omega) (by simp [exSc]) (by simp [exSc]) [65, 67]
+
+/-! ### `i32`: the fixed-width arithmetic of `Poa::custom` and `Poa::global_banded` (`RbV/Model/PoaI32.lean`)
+
+The Rust code computes every score in `i32` (the harness is built with `overflow-checks`: an overflow is a panic).
+`Poa.Model.customTableC` / `bandedRowsC` are the mirrors with every `+` and `*` of the Rust text checked.  Inside the
+parametric envelope `PoaEnv` — `B ≥ 1` bounds `|score(r, q)|` over node labels × query symbols and `|gap_open|`,
+`gap_open ≤ 0`, the four clip penalties anywhere in `[MIN_SCORE, 0]`, `n·B < 2³¹`, `m·B < 2³¹` (`m` nodes, `n` query symbols),
+`2·B ≤ 2³¹ + MIN_SCORE` — **no checked operation fails and the tables are exactly those of the unbounded mirrors**, on every
+well-formed acyclic graph (what `model_history_all_modes_acyclic` gives for every history), in every mode and for every
+bandwidth.  Proof (`Lemmas/PoaI32.lean`): every cell of column `j` lies in `[MIN_SCORE − B, j·B]` (row 0 in `[MIN_SCORE, 0]`,
+out-of-band answers are `MIN_SCORE`), `max_in_column`, `max_in_row` in `[0, n·B]`; induction over the topological order.
+All other theorems of this file about `customTable` / `bandedRows` therefore hold for the `i32` computation. -/
+
+/-- `topo` lists only nodes of the graph (well-formed acyclic graph) -/
+theorem topo_lt (n : Nat) (es : Poa.Model.WEdges) (wf : ∀ e ∈ es, e.1 < n ∧ e.2.1 < n)
+    (hac : Acyclic (plain es)) : ∀ v ∈ Poa.Model.topo n es, v < n := by
+  obtain ⟨vis, h1, _, h3, _⟩ := Poa.Model.topo_spec n es wf hac
+  intro v hv
+  rw [h1, List.mem_reverse] at hv
+  exact (h3 v).mp hv
+
+/-- **`Poa::custom` (all modes) in `i32`: no overflow inside `PoaEnv`; the checked mirror is the unbounded mirror.** -/
+theorem poa_i32_no_overflow (sc : Sc) (xp xs yp ys : Int) (labels : List Nat) (es : Poa.Model.WEdges) (query : List Nat)
+    (B : Int) (henv : Poa.Model.PoaEnv sc xp xs yp ys labels query B)
+    (wf : ∀ e ∈ es, e.1 < labels.length ∧ e.2.1 < labels.length) (hac : Acyclic (plain es)) :
+    Poa.Model.customTableC sc xp xs yp ys labels es query =
+      some (Poa.Model.customTable sc xp xs yp ys labels es query) :=
+  Poa.Model.I32P.customTableC_eq henv es (topo_lt labels.length es wf hac)
+
+/-- **`Poa::global_banded` in `i32`, any bandwidth: no overflow inside `PoaEnv`; the rows are the unbounded mirror's.** -/
+theorem poa_banded_i32_no_overflow (sc : Sc) (xp xs yp ys : Int) (labels : List Nat) (es : Poa.Model.WEdges)
+    (query : List Nat) (bw : Nat) (B : Int) (henv : Poa.Model.PoaEnv sc xp xs yp ys labels query B)
+    (wf : ∀ e ∈ es, e.1 < labels.length ∧ e.2.1 < labels.length) (hac : Acyclic (plain es)) :
+    Poa.Model.bandedRowsC sc xp yp labels es query bw =
+      some (Poa.Model.bRow0 sc.gap yp query.length, Poa.Model.bandedRows sc xp yp labels es query bw) :=
+  Poa.Model.I32P.bandedRowsC_eq henv es bw (topo_lt labels.length es wf hac)
+
+/-- the envelope of the C16 tie (|scores| ≤ 1024 — `SANE` of the harness —, at most 2 000 000 nodes and query symbols;
+the tie runs with ≤ 25 + growth) is an instance -/
+theorem poa_fixed_envelope_is_instance (sc : Sc) (xp xs yp ys : Int) (labels query : List Nat)
+    (hw : ∀ r ∈ labels, ∀ q ∈ query, -1024 ≤ sc.w r q ∧ sc.w r q ≤ 1024) (hgap : -1024 ≤ sc.gap ∧ sc.gap ≤ 0)
+    (hxp : Poa.Model.minScore ≤ xp ∧ xp ≤ 0) (hxs : Poa.Model.minScore ≤ xs ∧ xs ≤ 0)
+    (hyp : Poa.Model.minScore ≤ yp ∧ yp ≤ 0) (hys : Poa.Model.minScore ≤ ys ∧ ys ≤ 0)
+    (hm : labels.length ≤ 2000000) (hn : query.length ≤ 2000000) : Poa.Model.PoaEnv sc xp xs yp ys labels query 1024 := by
+  have h2 : 2 * (1024 : Int) ≤ 2147483648 + Poa.Model.minScore := by decide
+  exact ⟨by omega, fun r hr q hq => (hw r hr q hq).1, fun r hr q hq => (hw r hr q hq).2, hgap, hxp, hxs, hyp, hys,
+    by omega, by omega, h2⟩
+
+-- non-vacuity: graph A→C→G plus the edge A→G, query ACG with scores of magnitude 4·10⁸: inside `PoaEnv`; the `i32` table's
+-- score; outside: two matches of 2·10⁹ overflow
+def scBigPoa : Sc := ⟨fun a b => if a = b then 400000000 else -400000000, -400000000⟩
+example : Poa.Model.PoaEnv scBigPoa Poa.Model.minScore (-7) 0 Poa.Model.minScore [65, 67, 71] [65, 67, 71] 400000000 :=
+  ⟨by decide, by decide, by decide, by decide, by decide, by decide, by decide, by decide, by decide, by decide, by decide⟩
+example : (Poa.Model.customTableC scBigPoa Poa.Model.minScore (-7) 0 Poa.Model.minScore [65, 67, 71]
+    [(0, 1, 1), (1, 2, 1), (0, 2, 1)] [65, 67, 71]).map (·.score) = some 1200000000 := by decide +kernel
+example : (Poa.Model.customTableC ⟨fun _ _ => 2000000000, -1⟩ 0 0 0 0 [65, 67] [(0, 1, 1)] [65, 67]).isNone = true := by
+  decide +kernel
 
 /-! ### Source-extracted obligations (DESIGN §8): `MIN_SCORE` of `poa.rs`
 
